@@ -7,9 +7,9 @@ triggers), round 3 asks for a different kind of subtlety (secondary clauses, alt
 points, cumulative histories)."""
 import json, os, sys
 BENIGN_ROUND = 1
-if len(sys.argv) > 1 and sys.argv[1] in ("benign", "benign2"):
+if len(sys.argv) > 1 and sys.argv[1] in ("benign", "benign2", "benign3"):
     rnd = 0
-    BENIGN_ROUND = 2 if sys.argv[1] == "benign2" else 1
+    BENIGN_ROUND = {"benign": 1, "benign2": 2, "benign3": 3}[sys.argv[1]]
 else:
     rnd = int(sys.argv[1]) if len(sys.argv) > 1 else 1
 R = "" if rnd == 1 else str(rnd)
@@ -125,11 +125,24 @@ Find benign changes of a DIFFERENT kind. Directions that are still open:
 - API-level refactors that keep signatures: by-value vs by-reference internals, moving logic between the typed and message-level layer.
 Stay strictly inside what the statement leaves open: if a reader could argue that the statement promises the behaviour you are changing, pick something else (or record the argument under "doubt").
 """
+BENIGN3_EXTRA = """
+## THIRD ROUND (read carefully)
+Two rounds of benign changes have been collected and the oracle is silent on all of them. Already covered (do NOT repeat): reordering terms / list entries; where a new variable is inserted; representation of an equal result (Linear vs Quadratic vs Polynomial message, scaled equations); error wording / variant / precondition order; extra metadata on generated objects; different fresh ids; absent optional field vs explicit default; caching, pre-sizing, BTreeMap vs HashMap.
+This round, make the change NOT in the functions the anchors name but in a SHARED HELPER they rely on (a constructor such as `Linear::new`, a `From`/`FromIterator`/`IntoIterator` impl, `PartialEq`/`Hash` of a key type, an id allocator, a bound / interval helper, a parse or formatting helper, a constant), such that every caller's promised behaviour is preserved while something incidental about the helper's output changes. Directions:
+- NORMALISATION done earlier or later (a helper that now also sorts / merges duplicates / drops explicit zeros or no longer does so where the callers do not depend on it; trimming or not trimming whitespace where every caller trims anyway);
+- NUMERIC freedom inside helpers where the statement allows rounding or says "encloses": outward rounding of interval ends by one ulp (`next_down`/`next_up`), a tighter but still valid interval product or power, `mul_add`, a different summation order, a tolerance comparison written differently but equivalent on every reachable value;
+- CAPACITY / LAZINESS: returning an iterator that yields the same items in another order where callers collect into sets or maps; allocating ids from a different but still fresh place (e.g. max over a superset of the ids in use);
+- DEFENSIVE behaviour on inputs OUTSIDE every statement's quantifier (NaN, invalid messages) — e.g. a helper that now returns an error earlier for an input the callers reject anyway;
+- STRING-level freedom: a different but equivalent spelling the reader accepts (number formatting such as `1` vs `1.0` vs `1e0`, upper/lower-case keywords, line endings, trailing blanks, field widths) in writers, or accepting MORE spellings in readers.
+Before settling on a change, re-read the statement and make sure that NO clause of it (including secondary clauses about ids, names, errors, untouched parts, minimality or exactness) is affected for ANY input inside its quantifier; if a reader could argue otherwise, pick something else or record the argument under "doubt".
+"""
 for pid, p in props.items():
     if rnd == 0:
         text = json.dumps({k: p[k] for k in ['id', 'title', 'statement', 'quantifier', 'anchors']}, indent=1)
-        tag = 'benign2' if BENIGN_ROUND == 2 else 'benign'
+        tag = {1: 'benign', 2: 'benign2', 3: 'benign3'}[BENIGN_ROUND]
         body = BENIGN.format(wt=f'/tmp/{tag}-{pid}', out=f'/tmp/{tag}-{pid}-out', demo=f'{tag}_demo_{pid.lower()}', text=text, pid=pid)
+        if BENIGN_ROUND == 3:
+            body = body.replace("## What to deliver: TWO independent benign changes (A and B)", BENIGN3_EXTRA + "\n## What to deliver: TWO independent benign changes (A and B)")
         if BENIGN_ROUND == 2:
             body = body.replace("## What to deliver: TWO independent benign changes (A and B)", BENIGN2_EXTRA + "\n## What to deliver: TWO independent benign changes (A and B)")
         open(f'/tmp/seedwork/prompt-{pid}-{tag}.txt', 'w').write(body)
